@@ -367,7 +367,9 @@ func Run(items []string, opt Options) Summary {
 					record(r)
 					if r.Violation != nil {
 						v := *r.Violation
-						v.Item = item
+						if v.Item == "" {
+							v.Item = item // a handler may name a narrower, directly replayable item
+						}
 						w.inC.Close()
 						w.cmd.Wait()
 						w = nil
